@@ -91,10 +91,10 @@ def plan(tier, seed):
              {"name": "cache1d", "kind": "cache1d", "n": 12 if q else 100, "timeout": 1800},
              {"name": "cache2d-0", "kind": "cache2d", "b": 0, "n": 4 if q else 20, "timeout": 2400},
              {"name": "cache2d-1", "kind": "cache2d", "b": 1, "n": 4 if q else 20, "timeout": 2400},
-             {"name": "weight", "kind": "weight", "timeout": 2400},
-             {"name": "sched-a", "kind": "sched", "part": "a", "timeout": 2400, "cpus": 8},
-             {"name": "sched-b", "kind": "sched", "part": "b", "timeout": 2400, "cpus": 8},
-             {"name": "faults", "kind": "faults", "timeout": 2400, "cpus": 6}]
+             {"name": "weight", "kind": "weight", "once": True, "timeout": 2400},
+             {"name": "sched-a", "kind": "sched", "once": True, "part": "a", "timeout": 2400, "cpus": 8},
+             {"name": "sched-b", "kind": "sched", "once": True, "part": "b", "timeout": 2400, "cpus": 8},
+             {"name": "faults", "kind": "faults", "once": True, "timeout": 2400, "cpus": 6}]
     if not q:
         specs.append({"name": "asan-pdfs", "kind": "pdfs", "n": 200, "build": "asan", "timeout": 1800})
     return specs
